@@ -18,6 +18,9 @@ CONSTANTS
   CleanSC = "sf-"
   CountRule = "sound"
   EagerCount = FALSE
+  Holds = FALSE
+  MaxTick = 0
+  TickGuard = "impl"
 VIEW view
 INVARIANTS TypeOK ReadsIsolated KeyMatchesRecord NoAliasing PutOncePerUse PutExactlyOncePerUse
 PROPERTIES CleanReleases NothingPassedAfterClean NotConsulted EmitSound
